@@ -9,17 +9,60 @@ E1 = "E1 nir2smt"
 E2 = "E2 symex"
 
 # id -> (engine, technique, level text, level note, design ref)
+E1_NOTE = ("Amaranth's elaborator and NIR are the trusted front end (reduced by co-simulating the encoding against "
+           "Amaranth's Python simulator per configuration and by replaying every counterexample on that simulator "
+           "from reset); z3 (fresh QF_BV solver per query); single clock domain with rst held low; configurations "
+           "(widths, layouts, feature sets) are enumerated from bounded families, inside each the solver covers "
+           "every input value, cycle-by-cycle schedule and (for free-state windows) every internal state.")
+E2_NOTE = ("The real Python functions run on z3-backed proxy integers (module globals isinstance/range rebound from "
+           "the harness, no source edits); every feasible path of the bounded call sequence is enumerated and each "
+           "obligation discharged by z3 on each path; every path is replayed concretely on the unpatched module. "
+           "Widths, alignments and tuple shapes are enumerated; addresses, sizes and offsets are symbolic integers.")
+T1 = "bounded symbolic model checking of the generated netlist (Amaranth NIR -> z3 QF_BV transition system)"
+T2 = "symbolic execution of the real Python code on z3-backed integers, exhaustive path enumeration"
+
+
+def _e1(text, ref):
+    return (E1, T1, text, E1_NOTE, ref)
+
+
+def _e2(text, ref):
+    return (E2, T2, text, E2_NOTE, ref)
+
+
 CLAIMED = {
-    "C12": (E1, "bounded symbolic model checking of the generated netlist (NIR -> z3 QF_BV), exact "
-                "next-state function from a free state + reset value",
-            "The real elaborate() of every field action is translated from Amaranth's NIR into a bit-vector "
-            "transition system; z3 proves the exact next-state and output functions from an arbitrary state "
-            "(2 frames) and the reset value, for every input value, per enumerated shape/init. Exact step + "
-            "initial state is a bisimulation with the documented automaton, hence all histories.",
-            "Amaranth's elaborator and NIR are the trusted front end (reduced by per-configuration "
-            "co-simulation of the encoding against Amaranth's Python simulator); z3; rst held low; shapes are "
-            "enumerated (widths <= 32).",
-            "DESIGN.md section 4 C12"),
+    "C04": _e1("Real Multiplexer.elaborate (with the real shadow-balancing code) per layout: read-strobe exactness and "
+               "zero-when-idle for ALL input sequences (1-2 frames from an arbitrary state), atomic snapshot of an "
+               "n-chunk read transaction over 2n+2 frames from an arbitrary state with register values changing every "
+               "cycle; idle-collapse / unmapped=idle lemmas generalise the bounded gaps.", "DESIGN.md section 4 C04"),
+    "C05": _e1("Exact write-strobe function for ALL sequences (2 free frames), write data of a complete n-chunk write "
+               "(2n+1 free frames), and a reset-rooted miter showing the shadow-sharing limit is unobservable under "
+               "conforming traffic.", "DESIGN.md section 4 C05"),
+    "C06": _e1("Real csr.Decoder.add/elaborate and MemoryMap.window_patterns per layout; the decoder is combinational, "
+               "so one free frame decides routing, address/data pass-through and read-data selection for every input "
+               "combination against the windows() oracle.", "DESIGN.md section 4 C06"),
+    "C07": _e1("Real wishbone.Decoder.add/elaborate per geometry and feature mix; one free frame decides selection, "
+               "request relay (defaults for missing optional signals) and response relay for every combination of "
+               "requests and subordinate responses.", "DESIGN.md section 4 C07"),
+    "C08": _e1("Exact reachable state set of the arbiter by all-SAT image iteration; the owner of each state is "
+               "established observationally (for all inputs the bus carries exactly that initiator and only it sees "
+               "responses); non-pre-emption is a one-step query from every reachable state.", "DESIGN.md section 4 C08"),
+    "C09": _e1("Exact next-owner function from every reachable state and a lasso search of length |reachable|+1 "
+               "(complete for the finite state graph) for a starving loop with a released cycle.",
+               "DESIGN.md section 4 C09"),
+    "C10": _e1("Reset-rooted BMC of the bridge against a reference sequencer for 2-3 complete transfers with symbolic "
+               "requests, gaps, select masks and back-to-back transfers, plus all-state clauses (no strobe outside a "
+               "transfer, single-cycle ack) from a free state.", "DESIGN.md section 4 C10"),
+    "C12": _e1("Exact next-state and output functions of every field action from an arbitrary state (2 frames) and "
+               "the reset value, per enumerated shape/init: a bisimulation with the documented automaton, hence all "
+               "histories.", "DESIGN.md section 4 C12"),
+    "C13": _e1("Trigger functions over two frames from an arbitrary state and from reset, exact pending step with bit "
+               "k = event_map.index(src), outgoing line, for all trigger assignments of n sources; the event-map "
+               "numbering is executed symbolically (E2) over call sequences with a symbolic source choice.",
+               "DESIGN.md section 4 C13"),
+    "C15": _e1("Exact one-step functions for ack, read data and the whole memory array (array is part of the free "
+               "state), plus the construction-time image from reset: read-your-writes over all histories.",
+               "DESIGN.md section 4 C15"),
 }
 
 NOT_APPLICABLE = {
